@@ -36,6 +36,7 @@ struct Harness {
    std::vector<Entry> entries;
    long long interned = 0, bytes_total = 0;
    long long pools_seen = 1;
+   unsigned long long alternate = 0;
 
    explicit Harness(std::uint64_t seed) : rng(seed) { }
 
@@ -46,9 +47,17 @@ struct Harness {
    // intern `s` from an exact-size heap buffer that is not NUL-terminated
    const String& intern(const std::string& s, const char* family)
    {
+      // an exact-size unterminated heap buffer (ASan traps any read past it) ...
       std::unique_ptr<char8_t[]> buf(new char8_t[s.size() ? s.size() : 1]);
       std::memcpy(buf.get(), s.data(), s.size());
-      return intern_view(util::word_view(buf.get(), s.size()), s, family);
+      if (++alternate % 3 != 0) return intern_view(util::word_view(buf.get(), s.size()), s, family);
+      // ... or, every third time, the same bytes starting at an odd offset of a larger buffer: where the caller's bytes start
+      // (their alignment) is not part of what is asked
+      const std::size_t off = 1 + (alternate / 3) % 15;
+      std::unique_ptr<char8_t[]> wide(new char8_t[s.size() + off]);
+      std::memcpy(wide.get() + off, s.data(), s.size());
+      ctx().count("sources_at_odd_alignment");
+      return intern_view(util::word_view(wide.get() + off, s.size()), s, family);
    }
    // intern the bytes `v` designates (wherever they live: the caller's buffer, or the pool's own storage); `s` = the same bytes
    const String& intern_view(util::word_view v, const std::string& s, const char* family)
@@ -425,7 +434,7 @@ static void body(Ctx& C)
           "all earlier Strings are re-read (address, length, bytes) and storage intervals [header,end) are checked pairwise disjoint");
    C.assume("storage interval of a dynamic word = 8-byte length header immediately before characters() (pinned layout), used only for the overlap check");
    for (auto k : { "pool_rollovers", "oversize_own_pool", "oversize_fitted_current_pool", "boundary_requests_rolled_over", "boundary_requests_fitted",
-                   "equal_hash_chains_verified", "equal_hash_prefix_chains_verified", "words_given_an_equal_hash_neighbour", "re_interned", "rechecks", "interval_checks", "reserved_words_checked", "interned:reserved-near-miss", "first_pool_filled_exactly", "views_into_pool_storage" }) C.need(k);
+                   "equal_hash_chains_verified", "equal_hash_prefix_chains_verified", "words_given_an_equal_hash_neighbour", "re_interned", "rechecks", "interval_checks", "reserved_words_checked", "interned:reserved-near-miss", "first_pool_filled_exactly", "views_into_pool_storage", "sources_at_odd_alignment" }) C.need(k);
    {  // a completely empty first pool: words that fill it exactly, or miss by one byte
       for (long long n : { (1LL << 20) - 8, (1LL << 20) - 7, (1LL << 20) - 24, (1LL << 20) - 9 }) {
          Harness F(C.seed + 17 + std::uint64_t(n));
